@@ -35,4 +35,15 @@ func GetKind(name string) (k *Kind)
   trusted
   pure
   ensures k != nil
+
+// building the spec of one filter from its raw configuration (schema validation, per-kind Validate): external to
+// the pipeline's own checks; the name a spec reports is a function of the spec object
+ufunc specName(s int) string
+iface (s Spec) Name() (n string)
+  pure
+  ensures n == specName(ifaceVal(s))
+func NewSpec(super *supervisor.Supervisor, pipeline string, rawSpec interface{}) (spec Spec, err error)
+  trusted
+  flag allocates
+  ensures err == nil ==> spec != nil && ifaceVal(spec) != 0
 @*/
